@@ -243,3 +243,80 @@ the TEXT of the link — ends the function only for a directory: the return lies
 		},
 	})
 }
+
+func init() {
+	register(&Rule{
+		ID: "CRT", Props: []string{"C01"}, Min: 1,
+		Doc: `"whatever the position of the cuts … CR/LF": the chunk reader removes the line ends left at the end of a chunk before it hands the chunk to a parser; with CR LF files the carriage return goes with
+the line feed. In pkg/obiformats.ReadSeqFileChunk, what trims the tail of the buffer names both bytes: a constant cutset given to a Trim function holds '\r' whenever it holds '\n', and a
+condition comparing a byte of the buffer with '\n' compares it with '\r' in the same expression. Trimmed of LF only, a chunk of a CR LF GenBank file ends with a lone CR, which the flat-file
+parser takes for a line of its own.`,
+		Run: func(c *Ctx, s *Sink) {
+			fd, p := c.FindFunc("pkg/obiformats", "ReadSeqFileChunk")
+			if fd == nil {
+				s.Undecided(nil, "pkg/obiformats.ReadSeqFileChunk:line-ends", 0, "function not found")
+				return
+			}
+			info := p.TypesInfo
+			n := 0
+			isChar := func(e ast.Expr, ch int64) bool {
+				v, ok := constInt(info, e)
+				return ok && v == ch
+			}
+			var outer []ast.Expr
+			ast.Inspect(fd.Body, func(nd ast.Node) bool {
+				switch y := nd.(type) {
+				case *ast.CallExpr:
+					fn := fullName(callee(info, y))
+					if strings.HasPrefix(fn, "bytes.Trim") || strings.HasPrefix(fn, "strings.Trim") {
+						for _, a := range y.Args[1:] {
+							if tv, ok := info.Types[a]; ok && tv.Value != nil && tv.Value.Kind() == constant.String {
+								set := constant.StringVal(tv.Value)
+								if strings.Contains(set, "\n") {
+									n++
+									key := fmt.Sprintf("pkg/obiformats.ReadSeqFileChunk:trim#%d:CR-goes-with-LF", n)
+									if strings.Contains(set, "\r") {
+										s.Pass(nil, key, y.Pos(), "the cutset holds both bytes of a line end")
+									} else {
+										s.Fail(nil, key, y.Pos(), "the tail of the chunk is trimmed of line feeds only: a chunk of a CR LF file ends with a lone carriage return — a GenBank/EMBL file with CR LF line ends cut after an entry gives the parser a last line holding CR alone")
+									}
+								}
+							}
+						}
+					}
+				case *ast.ForStmt:
+					if y.Cond != nil {
+						outer = append(outer, y.Cond)
+					}
+				case *ast.IfStmt:
+					outer = append(outer, y.Cond)
+				}
+				return true
+			})
+			for _, cond := range outer {
+				lf, cr := false, false
+				ast.Inspect(cond, func(m ast.Node) bool {
+					if b, ok := m.(*ast.BinaryExpr); ok && (b.Op == token.EQL || b.Op == token.NEQ) {
+						if isChar(b.X, '\n') || isChar(b.Y, '\n') {
+							lf = true
+						}
+						if isChar(b.X, '\r') || isChar(b.Y, '\r') {
+							cr = true
+						}
+					}
+					return true
+				})
+				if !lf {
+					continue
+				}
+				n++
+				key := fmt.Sprintf("pkg/obiformats.ReadSeqFileChunk:trim#%d:CR-goes-with-LF", n)
+				if cr {
+					s.Pass(nil, key, cond.Pos(), "the condition names both bytes of a line end")
+				} else {
+					s.Fail(nil, key, cond.Pos(), "the tail of the chunk is trimmed of line feeds only: a chunk of a CR LF file ends with a lone carriage return")
+				}
+			}
+		},
+	})
+}
